@@ -234,13 +234,13 @@ type lookupRec struct {
 }
 
 type hctx struct {
-	native bool
-	clock  int64
-	ops    []porcupine.Operation
-	looks  []*lookupRec
-	wg     vsync.WaitGroup
-	nested int        // informational S7 variant: consumer issues a read between receives
-	bql    map[string]bqlResult
+	native                 bool
+	clock                  int64
+	ops                    []porcupine.Operation
+	looks                  []*lookupRec
+	wg                     vsync.WaitGroup
+	nested                 int // informational S7 variant: consumer issues a read between receives
+	bqlIns, bqlSel, bqlFin bqlResult
 
 	pendingNames []pendingNames
 }
@@ -302,7 +302,12 @@ func (h *hctx) spawnExist(client int, g storage.Graph, idx int) {
 
 // spawnLookup runs a lookup in one thread and its consumer in another.
 func (h *hctx) spawnLookup(name string, g storage.Graph, lk, opt string, lo *storage.LookupOptions, capacity int, nilChan bool, nested func()) *lookupRec {
-	rec := &lookupRec{name: name, in: gin{Kind: "lookup", LK: lk, Opt: opt}, lo: lo, loBefore: snap(lo), nilChan: nilChan, visible: 0b1111}
+	rec := &lookupRec{name: name, in: gin{Kind: "lookup", LK: lk, Opt: opt}, lo: lo, nilChan: nilChan, visible: 0b1111}
+	if !h.native {
+		// (the free-running companion must not read the options itself: the race
+		// detector would pair the harness's read with the driver's write)
+		rec.loBefore = snap(lo)
+	}
 	if lk == lkObjects {
 		rec.visible = 0b0011
 	}
@@ -333,7 +338,9 @@ func (h *hctx) spawnLookup(name string, g storage.Graph, lk, opt string, lo *sto
 			rec.call = h.tick()
 			rec.err = g.Objects(ctx, uS, uP1, lo, ch)
 			rec.ret = h.tick()
-			rec.loAfter = snap(lo)
+			if !h.native {
+				rec.loAfter = snap(lo)
+			}
 		})
 	default:
 		var ch chan *triple.Triple
@@ -363,7 +370,9 @@ func (h *hctx) spawnLookup(name string, g storage.Graph, lk, opt string, lo *sto
 				rec.err = g.Triples(ctx, lo, ch)
 			}
 			rec.ret = h.tick()
-			rec.loAfter = snap(lo)
+			if !h.native {
+				rec.loAfter = snap(lo)
+			}
 		})
 	}
 	return rec
@@ -598,25 +607,22 @@ var s6Scenario = scenario{Name: "S6", Class: "S6:BQL-INSERT|BQL-2-clause-SELECT"
 		if err := g.AddTriples(ctx, []*triple.Triple{model.T(uS, model.PI("p"), model.ON(o0)), model.T(o0, model.PI("q"), model.ON(model.N("/u", "x0")))}); err != nil {
 			panic(err)
 		}
-		h.bql = map[string]bqlResult{}
 		h.wg.Add(2)
 		vrt.GoNamed("insert", func() {
 			defer h.wg.Done()
-			r := runBQL(st, s6Insert, 0, 1)
-			h.bql["insert"] = r
+			h.bqlIns = runBQL(st, s6Insert, 0, 1)
 		})
 		vrt.GoNamed("select", func() {
 			defer h.wg.Done()
-			r := runBQL(st, s6Select, c, 1)
-			h.bql["select"] = r
+			h.bqlSel = runBQL(st, s6Select, c, 1)
 		})
 		h.wg.Wait()
 		vrt.MarkReturned()
 		// what the store holds afterwards, sequentially
-		h.bql["final"] = runBQL(st, s6Select, 0, 1)
+		h.bqlFin = runBQL(st, s6Select, 0, 1)
 	},
 	Custom: func(h *hctx, add func(shape, detail string)) string {
-		ins, sel, fin := h.bql["insert"], h.bql["select"], h.bql["final"]
+		ins, sel, fin := h.bqlIns, h.bqlSel, h.bqlFin
 		if ins.err != nil {
 			add("insert-returned-error", ins.err.Error())
 		}
